@@ -109,7 +109,7 @@ func discharge(sc *Script, o *Obligation, tier string) {
 	if o.Cover {
 		want = "sat"
 	}
-	quickT, slowT := 4, 20
+	quickT, slowT := 4, 30
 	if tier == "thorough" {
 		quickT, slowT = 10, 60
 	}
